@@ -89,7 +89,7 @@ def prelude(defs, kotlin_errors=True, type_attr=None):
     out = [ta("Opq") + "    #[diplomat::opaque]\n    pub struct Opq(pub u64);\n",
            ta("Host") + "    #[diplomat::opaque]\n    pub struct Host {\n        pub id: u64,\n        pub inner: Opq,\n        pub text: String,\n"
            "        pub bytes: Vec<u8>,\n        pub floats: Vec<f64>,\n        pub words: Vec<u32>,\n        pub wide: Vec<u16>,\n    }\n",
-           ta("En") + err + "    pub enum En {\n        A,\n        B = 5,\n        C = -3,\n        D,\n    }\n"]
+           ta("En") + err + "    pub enum En {\n        A,\n        B = 5,\n        C = -3,\n        D,\n        E = 4,\n    }\n"]
     for name, fields in defs["structs"].items():
         lt = "<'a>" if name == "Brw" else ""
         attr = "    #[diplomat::out]\n" if name == "Os" else (err if name in ("Inner", "Wide") else "")
